@@ -700,7 +700,9 @@ fn gen_small_cigar(rng: &mut Rng, bad: bool) -> Vec<(u8, usize)> {
                 0 => 0,
                 1 => (1usize << *rng.pick(&EDGES[..5])) + rng.below(3) as usize - 1,
                 2 => (1 << 28) - 1,
-                3 if bad => (1usize << 28) + rng.below(2) as usize,
+                // beyond 2^32 the low 32 bits look like a valid length again; kept below 2^41 so that no usize
+                // sum overflows here (span / end overflow is a different refusal, exercised by c05_reenc)
+                3 if bad => *rng.pick(&[1usize << 28, (1 << 28) + 1, 1 << 32, (1 << 32) + 5, (1 << 32) + (1 << 28) - 1, (1 << 33) + 1, (1 << 40) + 7]),
                 4 => 1 + rng.below(1 << 24) as usize,
                 _ => 1 + rng.below(200) as usize,
             }
@@ -1233,6 +1235,92 @@ fn writer_sequence(ctx: &mut Ctx, sub: u64, emit_corr: bool) {
     }
 }
 
+/// A stream of records read into ONE reused `RecordBuf` (`read_record_buf`): every record must come
+/// back as it does when decoded into a fresh buffer — nothing of the previous record may survive
+/// (name, CIGAR, bases, qualities, data), in particular when a field is present in one record and
+/// missing in the next.
+fn reader_sequence(ctx: &mut Ctx, sub: u64) {
+    let mut rng = Rng::new(sub);
+    let case = format!("rseq {sub}");
+    let n = 2 + rng.below(6) as usize;
+    let mut bodies: Vec<Vec<u8>> = vec![];
+    let mut tries = 0;
+    while bodies.len() < n && tries < 40 {
+        tries += 1;
+        let (nref, mut r, _) = gen_rec(&mut rng);
+        // make "present, then missing" transitions frequent
+        if rng.chance(1, 3) {
+            r.qual.clear();
+        }
+        if rng.chance(1, 5) {
+            r.seq.clear();
+            r.qual.clear();
+        }
+        if rng.chance(1, 4) {
+            r.data.clear();
+        }
+        if rng.chance(1, 5) {
+            r.cigar.clear();
+        }
+        if rng.chance(1, 6) {
+            r.name = None;
+        }
+        if let Ok(b) = real_encode(nref, &r) {
+            bodies.push(b);
+        }
+    }
+    if bodies.len() < 2 {
+        return;
+    }
+    ctx.eval(Some(fnv(case.as_bytes())));
+    let mut stream = vec![];
+    for b in &bodies {
+        stream.extend_from_slice(&framed(b));
+    }
+    let fresh: Vec<Result<Rec, String>> = bodies.iter().map(|b| real_decode(b)).collect();
+    let got = guarded(|| {
+        let mut rd = bam::io::Reader::from(&stream[..]);
+        let mut rb = RecordBuf::default();
+        let mut out: Vec<Result<Rec, String>> = vec![];
+        loop {
+            match rd.read_record_buf(&sam::Header::default(), &mut rb) {
+                Ok(0) => break,
+                Ok(_) => out.push(Ok(from_record_buf(&rb))),
+                Err(e) => {
+                    out.push(Err(errclass(&e).into()));
+                    break;
+                }
+            }
+        }
+        out
+    });
+    match got {
+        Err(p) => ctx.fail("reused-buffer", format!("read_record_buf into a reused buffer panicked: {p}"), case),
+        Ok(out) => {
+            for (i, f) in fresh.iter().enumerate() {
+                match (f, out.get(i)) {
+                    (Ok(a), Some(Ok(b))) if fmt_rec(a) == fmt_rec(b) => {}
+                    (Err(a), Some(Err(b))) if a == b => break,
+                    (a, b) => {
+                        ctx.fail(
+                            "reused-buffer",
+                            format!(
+                                "record {i} of {} read into a reused RecordBuf differs from the same bytes read into a fresh one: fresh {} reused {}",
+                                bodies.len(),
+                                match a { Ok(r) => fmt_rec(r), Err(e) => format!("error {e}") },
+                                match b { Some(Ok(r)) => fmt_rec(r), Some(Err(e)) => format!("error {e}"), None => "nothing (end of stream)".into() },
+                            ),
+                            case,
+                        );
+                        return;
+                    }
+                }
+            }
+            ctx.bump("rseq_ok");
+        }
+    }
+}
+
 fn bin_case(ctx: &mut Ctx, start: usize, end: usize) {
     // a record spanning [start, end] (1-based inclusive): N ops of at most 2^28-1
     let mut span = end + 1 - start;
@@ -1377,6 +1465,7 @@ pub fn run(ctx: &mut Ctx) {
             Some("rec") => rec_case(ctx, sub, false, true),
             Some("long") => rec_case(ctx, sub, true, true),
             Some("seq") => writer_sequence(ctx, sub, false),
+            Some("rseq") => reader_sequence(ctx, sub),
             Some("corpus") => {
                 if let Some((nref, r, label)) = corpus().into_iter().nth(sub as usize) {
                     let mut rng = Rng::new(1000 + sub);
@@ -1411,6 +1500,10 @@ pub fn run(ctx: &mut Ctx) {
     for it in 0..n {
         let sub = ctx.seed.wrapping_mul(3_000_017).wrapping_add(it);
         writer_sequence(ctx, sub, !ctx.tier_thorough || it % 40 == 0);
+    }
+    let n = ctx.n(400, 40_000);
+    for it in 0..n {
+        reader_sequence(ctx, ctx.seed.wrapping_mul(9_000_011).wrapping_add(it));
     }
     super::c05_reenc::run(ctx);
 }
